@@ -96,7 +96,26 @@ def add_bulk_protocol(pkg, rng):
     pkg.files[fn].append(M.Protocol(BULK_PROTO, steps))
 
 
+TAGS_PROTO = "SteerTags"
+
+
+def add_tags_protocol(pkg, rng):
+    """Coverage steering: tens of thousands of one-byte tags.  A stream of optional small numbers longer than the staging buffer,
+    every item present and most of them zero: every item boundary is a place where the next thing read is a tag byte, the
+    bytes around it are 01 and 00 in turn, and what a reader that has run dry finds in its buffer is one or the other."""
+    fn = sorted(pkg.files)[0]
+    pkg.files[fn].append(M.Protocol(TAGS_PROTO, [(sw.PAD_STEP, M.Prim("string"), False), ("tags", M.Opt(M.Prim(rng.choice(["uint8", "int8", "uint16"]))), True),
+                                                 ("after", M.Union((("int32", M.Prim("int32")), ("string", M.Prim("string"))), nullable=True), False)]))
+
+
 def override_bulk(proto, vals, rng, stats):
+    if proto.name == TAGS_PROTO:
+        i = [k for k, s_ in enumerate(proto.steps) if s_[0] == "tags"][0]
+        n = rng.randint(36000, 52000)
+        vals[i] = [0 if k % 97 else (k % 5) for k in range(n)]
+        vals[0] = "p" * rng.randint(0, 7)
+        stats["streams_of_tens_of_thousands_of_tag_bytes"] = stats.get("streams_of_tens_of_thousands_of_tag_bytes", 0) + 1
+        return
     if proto.name != BULK_PROTO:
         return
     i = [k for k, s in enumerate(proto.steps) if s[0] == BULK_STEP][0]
@@ -434,7 +453,9 @@ def versioned_task(task, ybin, root):
     _sanitize_for(task)
     seed, i, quick = task["seed"], task["i"], task["tier"] == "quick"
     rng = M.derive(seed, "c16v", i)
-    newest = C05.make_chain(rng.fork("chain"))
+    # (always with the record whose trailing fields - a string, vectors - go away in later versions: what a reader skips at the
+    #  end of an old stream is what a cut takes away first)
+    newest = C05.make_chain(rng.fork("chain"), force=("tail",))
     stats, viols, cases = {"models_with_cpp": 1, "versioned_models": 1, "cpp_harnesses_built_with_ASan_and_UBSan": 1 if SANITIZE[0] else 0}, [], []
     model, old_models = C05.open_models(newest, ybin, root)
     try:
@@ -512,6 +533,8 @@ def model_task(task, ybin, root):
     pkg = sw.stream_package(rng.next(), cfg=cfg, for_cpp=want_cpp)
     if want_cpp or i % 2 == 1:
         add_bulk_protocol(pkg, rng.fork("bulk"))
+    if not want_cpp and i % 8 == 1:
+        add_tags_protocol(pkg, rng.fork("tags"))
     model = P.PyModel(pkg, ybin, root, want_cpp=want_cpp, cpp_opts=C.CPP_OPTS)
     stats, viols, cases, samples = {"models_with_cpp": 1 if want_cpp else 0, "cpp_harnesses_built_with_ASan_and_UBSan": 1 if (want_cpp and SANITIZE[0]) else 0}, [], [], []
     try:
